@@ -192,7 +192,6 @@ func (w *walker) resolveObject(a *dg.Attr) *dg.Type {
 }
 
 func (w *walker) param(obj *dg.Type, prim *dg.Attr, e dg.MapEntry, loc string) {
-	cookie := loc == "cookie"
 	var t *dg.Type
 	if obj != nil {
 		if f := fieldByName(obj, e.Attr); f != nil {
@@ -233,15 +232,18 @@ func (w *walker) param(obj *dg.Type, prim *dg.Attr, e dg.MapEntry, loc string) {
 	if loc == "resp_header" {
 		loc = "header"
 	}
-	if loc == "resp_cookie" {
+	respCookie := loc == "resp_cookie"
+	if respCookie {
 		loc = "cookie"
 	}
-	cookie = loc == "cookie"
+
 	if w.isAliasParam(t) {
 		w.f["alias-in-param"] = true
 	}
-	if cookie && t.Kind == "prim" && t.Prim != "String" {
-		w.f["non-string-cookie"] = true
+	// request cookies of any primitive type compile since the client encoder converts them from the
+	// payload field; a RESPONSE cookie that is not a String still does not
+	if respCookie && t.Kind == "prim" && t.Prim != "String" {
+		w.f["non-string-response-cookie"] = true
 	}
 	if t.Kind == "map" && (loc == "header" || loc == "cookie") {
 		w.f["map-in-header-or-cookie"] = true
@@ -528,7 +530,7 @@ var rules = []rule{
 	{"digit-led-name", "digit-led-name", []string{"gen-error"}, nil, `\.go:\d+:\d+: expected `},
 	{"default-string-needs-escaping", "default-string-needs-escaping", []string{"gen-error"}, nil, `cli\.go:\d+:\d+: (missing ',' in argument list|string literal not terminated|unknown escape)`},
 	{"unexportable-name", "unexportable-name", []string{"build-error"}, []string{"other:", "type-mismatch", "undefined"}, `unexported|not exported by package`},
-	{"non-string-cookie", "non-string-cookie", []string{"build-error"}, []string{"type-mismatch", "unused-variable", "redeclared-short-var", "undefined"}, `declared and not used: \w+raw`},
+	{"non-string-response-cookie", "non-string-response-cookie", []string{"build-error"}, []string{"type-mismatch", "unused-variable", "redeclared-short-var", "undefined"}, `declared and not used: \w+raw`},
 	{"map-params-unsupported-type", "map-params-unsupported-type", []string{"gen-error"}, nil, `executing "(partial_request_elements|request-encoder)" at <\.(Type\.KeyType\.Type|Loop)>`},
 	{"map-in-header-or-cookie", "map-in-header-or-cookie", []string{"build-error", "gen-error"}, nil, `declared and not used: (head|val|vraw)$|undefined: (headStr|rhs|UObj)|expected selector or type assertion`},
 	{"map-param-nonprimitive-element", "map-param-nonprimitive-element", []string{"build-error"}, nil, `undefined: [A-Z]\w*$|declared and not used: val\w*Raw`},
